@@ -143,6 +143,8 @@ def gen_score(rng: random.Random) -> dict:
         now += dur
     via = "pdict" if (tl_tpb == 480 and rng.random() < (0.7 if long_piece else 0.2)) else "timeline"
     case = {"kind": "score", "tl_tpb": tl_tpb, "events": events, "via": via}
+    if via == "timeline" and rng.random() < 0.25:
+        case["bounded_by"] = "count"
     if via == "timeline" and not long_piece and rng.random() < 0.3:
         # other requests to the same device between the notes (a controller sweep, program changes): whatever the file device
         # does with them, the notes keep their times.  The extra track ends no later than the notes do.
@@ -418,8 +420,9 @@ def build_patterns(case):
             amps.append(vels[0] if share and len(set(vels)) == 1 else tuple(vels))
             cs = [v["chan"] for v in vs]
             chans.append(cs[0] if len(set(cs)) == 1 else tuple(cs))
-    return {"note": iso.PSequence(notes, 1), "duration": iso.PSequence(durs, 1), "gate": iso.PSequence(gates, 1),
-            "amplitude": iso.PSequence(amps, 1), "channel": iso.PSequence(chans, 1)}
+    reps = 1 if case.get("bounded_by", "pattern") == "pattern" else 1000       # "count": endless patterns, schedule(count=N)
+    return {"note": iso.PSequence(notes, reps), "duration": iso.PSequence(durs, reps), "gate": iso.PSequence(gates, reps),
+            "amplitude": iso.PSequence(amps, reps), "channel": iso.PSequence(chans, reps)}
 
 
 def run_score_impl(case, tmpdir):
@@ -447,7 +450,10 @@ def run_score_impl(case, tmpdir):
                 extra.update(program_change=iso.PSequence([(5 * j) % 128 for j in range(cc["count"])], 1))
             if cc["first"]:
                 tl.schedule(extra)
-        tl.schedule(ev)
+        if case.get("bounded_by") == "count":
+            tl.schedule(ev, count=len(case["events"]))     # the piece ends with the duration of its last event all the same
+        else:
+            tl.schedule(ev)
         if cc and not cc["first"]:
             tl.schedule(extra)
         try:
@@ -897,6 +903,8 @@ def _judge(ctx, kind, cases, state):
             ctx.count("score:tl_tpb:%d" % case["tl_tpb"], "score:via:%s" % case["via"], "score:events:%d" % len(case["events"]))
             if case.get("controllers"):
                 ctx.count("score:with-%s-track" % case["controllers"]["kind"])
+            if case.get("bounded_by") == "count":
+                ctx.count("score:bounded-by-count")
             ctx.count("score:class:%s" % ("with-rests-or-silent-voices(correspondence only)" if rests or any(
                 v["vel"] == 0 or v["len"] == 0 for ev in case["events"] for v in ev["voices"]) else "theorem-domain"))
             if any(n > 1 for n in nvo):
